@@ -1,12 +1,12 @@
 #!/bin/bash
 # tools/selftest.sh [id ...]: apply each hand-written mutant (selftest/mutants.py) to a scratch copy of /repo, run the quick check of
 # its property restricted to the named contract (--only), and report whether the expected obligation is reported.
-cd /verif
+cd "$(dirname "$0")/.."
 work=$(mktemp -d /tmp/selftest.XXXXXX)
 trap 'rm -rf "$work"' EXIT
 /venv/bin/python - "$work" "$@" <<'PY'
 import os, subprocess, sys, shutil, json
-sys.path.insert(0, "/verif")
+sys.path.insert(0, os.getcwd())
 from selftest.mutants import MUTANTS
 work = sys.argv[1]
 want = set(sys.argv[2:])
